@@ -207,6 +207,8 @@ M("rowmap-inline-drops-row", MP, "            if failonerror == 'inline':\n     
 M("rowmapmany-buffers-rows", MP, "            for outrow in rowgenerator(row):\n                yield tuple(outrow)", "            for outrow in list(rowgenerator(row)):\n                yield tuple(outrow)", ["C19"])
 M("fieldmap-errorvalue-none", MP, "                else:\n                    val = errorvalue\n            outrow.append(val)", "                else:\n                    val = None\n            outrow.append(val)", ["C19"])
 M("fieldmap-argument-ignored-when-config-set", MP, "        self.failonerror = (config.failonerror if failonerror is None\n                                else failonerror)\n        self.errorvalue = errorvalue", "        self.failonerror = (config.failonerror if not failonerror\n                                else failonerror)\n        self.errorvalue = errorvalue", ["C19"])
+M("format-drops-kwargs", CV, "    conv = lambda v: fmt.format(v)\n    return convert(table, field, conv, **kwargs)", "    conv = lambda v: fmt.format(v)\n    kwargs.pop('failonerror', None)\n    return convert(table, field, conv, **kwargs)", ["C19"])
+M("interpolateall-drops-errorvalue", CV, "    conv = lambda v: fmt % v\n    return convertall(table, conv, **kwargs)", "    conv = lambda v: fmt % v\n    kwargs.pop('errorvalue', None)\n    return convertall(table, conv, **kwargs)", ["C19"])
 
 HD = "transform/headers.py"
 FL = "transform/fills.py"
